@@ -1,7 +1,7 @@
 #!/bin/bash
 # seed_take.sh <PROP> <n> "<breaks>" "<needs>" : copy /tmp/seed_<PROP>/SEED to seeded/<PROP>-<n>, write meta.json
 P=$1; N=$2; D=/verif/seeded/$P-$N
-mkdir -p $D && cp /tmp/seed_$P/SEED/* $D/ || exit 1
+mkdir -p $D && cp ${SEED_SRC:-/tmp/seed_$P}/SEED/* $D/ || exit 1
 python3 - "$P" "$3" "$4" "$D" <<'PY'
 import json,sys
 p,b,n,d=sys.argv[1:5]
